@@ -1,6 +1,7 @@
 //! Entry point of the verification harness. See /verif/DESIGN.md.
 pub mod board;
 pub mod c10;
+pub mod c12;
 pub mod corpus;
 pub mod eng;
 pub mod oracle;
@@ -195,6 +196,7 @@ pub fn main() {
         "search" => {
             let r = match a.prop.as_str() {
                 "C11" => search::run_c11(&a.tier, a.seed, a.shard, a.of, a.only_job, a.time_cap),
+                "C12" => c12::run_c12(&a.tier, a.seed, a.shard, a.of, a.only_job, a.time_cap),
                 "C13" => search::run_c13(&a.tier, a.seed, a.shard, a.of, a.only_job, a.time_cap),
                 "C16" => search::run_c16(&a.tier, a.seed, a.shard, a.of, a.results.as_deref(), a.time_cap),
                 other => Err(format!("unknown search property '{other}'")),
